@@ -147,6 +147,7 @@ RAW_UNITS = [
                                       "private n", "protected a"], "end subroutine"),
     ("module", "module mm", ["integer, public :: a", "integer, private :: b", "real, protected :: c = 1.0", "private :: a",
                              "public b, c", "parameter (p = 3, q = 'x,y')", "integer p", "character(3) q"], "end module"),
+    ("function", "type(pure_t) function f8(a)", ["type,(Pure_T), intent(in) :: a"], "end function"),
     ("subroutine", "subroutine dup(a)", ["integer a", "real b, a", "intent(in) :: a", "save b"], "end subroutine"),
     ("module", "module m2", ["integer x", "dimension x(pointer_count)", "real y", "allocatable :: y(:,:)", "data x /1/",
                              "integer z", "pointer :: z ( : )", "real w", "intent(inout) w", "value w"], "end module"),
